@@ -1,4 +1,4 @@
-From MC Require Export Model.Verdict Model.ApplyLaws.
+From MC Require Export Model.Verdict Model.ApplyLaws Model.Obj.
 
 Record C05_case := mkC05 {
   c_obs : json; c_last : json; c_des : json;
@@ -35,5 +35,58 @@ Definition C05_check (c : C05_case) : verdict :=
                         ("idempotence", res_eqb (c_impl2 c) (Ok r))] with
       | Some n => PROPFAIL (n ++ suffix)
       | None => OK
+      end
+  end.
+
+(* ---------- ApplyUpdate (merge + revert + last-applied bookkeeping) ---------- *)
+From MC Require Import Generated.
+Record C05u_case := mkC05u {
+  u_obs : json; u_des : json;
+  u_impl : res json;         (* what ApplyUpdate returned *)
+  u_impl2 : res json;        (* ApplyUpdate(result, desired) *)
+  u_des_after : json;        (* the desired object after the call (its own annotation is stripped) *)
+  u_orig_mutated : bool
+}.
+
+Definition nested_eqb (a b : nested) : bool :=
+  match a, b with
+  | NFound x, NFound y => jeqb x y
+  | NMissing, NMissing => true
+  | NErr, NErr => true
+  | _, _ => false
+  end.
+
+Definition C05u_check (c : C05u_case) : verdict :=
+  let o := obj_map (u_obs c) in let d := obj_map (u_des c) in
+  if negb (wf_json (u_obs c) && wf_json (u_des c)) then SKIP "not-wf-json" else
+  if u_orig_mutated c then PROPFAIL "observed-object-mutated" else
+  let m := apply_update o d in
+  match u_impl c with
+  | Panic => PROPFAIL "panic"
+  | Err => match m with Err => OK | _ => DIVERGE "apply-update-outcome" end
+  | Ok r =>
+      let rm := obj_map r in
+      match first_fail
+        [("system-metadata-not-as-observed",
+          forallb (fun f => nested_eqb (nested_get rm ["metadata"; f]) (nested_get o ["metadata"; f]))
+                  ["uid"; "resourceVersion"; "generation"; "creationTimestamp"; "deletionTimestamp"]);
+         ("status-not-as-observed", nested_eqb (nested_get rm ["status"]) (nested_get o ["status"]));
+         ("last-applied-not-the-new-desired",
+          match get_last_applied rm with
+          | Ok la => jeqb la (JObj (nullify_last_applied d))
+          | _ => false end);
+         ("own-annotation-not-stripped-from-desired",
+          jeqb (u_des_after c) (JObj (nullify_last_applied d)))] with
+      | Some n => PROPFAIL n
+      | None =>
+          match m with
+          | Ok mr => if negb (jeqb (JObj mr) r) then DIVERGE "apply-update-result" else
+                     (* re-applying the same desired state changes nothing (where the merge laws' hypothesis holds) *)
+                     let last := match get_last_applied o with Ok la => la | _ => JNull end in
+                     if Hb (JObj (nullify_last_applied d)) (u_obs c) last && null_okb (JObj (nullify_last_applied d)) (u_obs c) last
+                     then if res_eqb (u_impl2 c) (Ok r) then OK else PROPFAIL "apply-update-not-idempotent"
+                     else OK
+          | _ => DIVERGE "apply-update-outcome"
+          end
       end
   end.
